@@ -582,6 +582,7 @@ def run(tier):
     ck.cov["source_fingerprint"] = source_fingerprint(["abel/tools/polynomial.py"])
     ck.proofs("PyAbel.Props.C10")
     ck.proofs("PyAbel.Props.C10SPoly")
+    ck.proofs("PyAbel.Props.C10Adjoin")
     ok, log = ensure_driver()
     if ok:
         correspondence(ck, tier)
